@@ -96,6 +96,7 @@ fn main() {
                 "c16_vard" => ("C16", c06s::part_vard(tier)),
                 "c18_shlib" => ("C18", c18s::part_shlib(tier)),
                 "c17_names" => ("C17", c17e::part_names(tier)),
+                "c17_objects" => ("C17", c18s::part_names_across_objects(tier)),
                 "c15_dap" => ("C15", c15d::part_dap_data(tier)),
                 "c05_threads" => ("C05", mt::part_c05_threads(tier)),
                 "c07_std" => ("C07", c06s::part_std(tier, true)),
@@ -267,6 +268,7 @@ fn run_check(id: &str, tier: Tier) -> i32 {
             let mut r = Report::new("C17", tier, "model_checking");
             r.parts.push(c17::part_index(tier));
             r.parts.push(c17e::part_names(tier));
+            r.parts.push(c18s::part_names_across_objects(tier));
             finish(r)
         }
         _ => {
